@@ -346,3 +346,96 @@ Definition t_step_log (B : Z) (h : th) (o : top) : th :=
   | TRestart clock => t_restart h clock
   end.
 Definition t_run_log (B : Z) (h : th) (ops : list top) : th := fold_left (t_step_log B) ops h.
+
+(* ---------------------------------------------------------------------- *)
+(* directories, absolute names, the working directory.
+   Both init functions turn the path they are given into an absolute one
+   (muggle_path_isabs / muggle_os_curdir / muggle_path_join) and keep THAT in
+   handler->filepath; every later file operation (remove / rename / fopen in
+   the rotate functions) builds its name from handler->filepath.  So the working
+   directory is part of the configuration: it is consulted once, at init.
+   A directory is named by the scratch root it lies under and a sub-directory
+   index; an absolute file name is (directory, name inside it); the whole file
+   system maps directories to the per-directory maps used above (a directory
+   without files and a missing directory are the same: muggle_os_fopen creates
+   missing directories). *)
+Inductive dir := Dir (root sub : Z).
+Definition dir_eqb (a b : dir) : bool :=
+  match a, b with Dir r1 s1, Dir r2 s2 => (r1 =? r2) && (s1 =? s2) end.
+
+(* the path argument of init: absolute (names its directory), or relative with a
+   sub-directory part ("name", "./name": sub = 0; "sub/dir/name": sub = 1) *)
+Inductive parg := PAbs (d : dir) | PRel (sub : Z).
+Definition resolve (cwd : Z) (p : parg) : dir :=
+  match p with PAbs d => d | PRel sub => Dir cwd sub end.
+
+Section GFS.
+  Variable N : Type.
+  Definition gfsys := list (dir * fsys N).
+  Fixpoint g_dir (d : dir) (g : gfsys) : fsys N :=
+    match g with
+    | [] => []
+    | (e, fs) :: r => if dir_eqb d e then fs else g_dir d r
+    end.
+  Fixpoint g_del (d : dir) (g : gfsys) : gfsys :=
+    match g with
+    | [] => []
+    | (e, fs) :: r => if dir_eqb d e then g_del d r else (e, fs) :: g_del d r
+    end.
+  Definition g_set (d : dir) (fs : fsys N) (g : gfsys) : gfsys := (d, fs) :: g_del d g.
+
+  (* a process with one handler: the handler state h carries the contents of ITS
+     directory (gs_dir, fixed at init); gs_others holds all directories as they
+     were when the handler was (re)started; gs_cwd is the working directory *)
+  Variable H : Type.
+  Variable hfs : H -> fsys N.
+  Record gst := { gs_others : gfsys; gs_cwd : Z; gs_parg : parg; gs_dir : dir; gs_h : H }.
+  (* the file system as a whole *)
+  Definition gs_fs (g : gst) : gfsys := g_set (gs_dir g) (hfs (gs_h g)) (gs_others g).
+
+  Variables W R : Type.
+  Variable hwrite : H -> W -> H.                  (* the write function *)
+  Variable hreinit : H -> fsys N -> R -> H.       (* destroy + init on a directory with these contents *)
+  Inductive gop := GWrite (w : W) | GRestart (r : R) | GChdir (c : Z).
+
+  Definition g_start (fs0 : gfsys) (cwd : Z) (p : parg) (mk : fsys N -> H) : gst :=
+    let d := resolve cwd p in
+    {| gs_others := fs0; gs_cwd := cwd; gs_parg := p; gs_dir := d; gs_h := mk (g_dir d fs0) |}.
+
+  Definition g_step (g : gst) (o : gop) : gst :=
+    match o with
+    | GWrite w =>
+      {| gs_others := gs_others g; gs_cwd := gs_cwd g; gs_parg := gs_parg g; gs_dir := gs_dir g;
+         gs_h := hwrite (gs_h g) w |}
+    | GChdir c =>
+      {| gs_others := gs_others g; gs_cwd := c; gs_parg := gs_parg g; gs_dir := gs_dir g; gs_h := gs_h g |}
+    | GRestart r =>
+      let fs := gs_fs g in
+      let d := resolve (gs_cwd g) (gs_parg g) in       (* init resolves against the CURRENT directory *)
+      {| gs_others := fs; gs_cwd := gs_cwd g; gs_parg := gs_parg g; gs_dir := d;
+         gs_h := hreinit (gs_h g) (g_dir d fs) r |}
+    end.
+  Definition g_run (g : gst) (ops : list gop) : gst := fold_left g_step ops g.
+End GFS.
+
+Arguments g_dir {N}. Arguments g_del {N}. Arguments g_set {N}.
+Arguments gs_others {N H}. Arguments gs_cwd {N H}. Arguments gs_parg {N H}. Arguments gs_dir {N H}. Arguments gs_h {N H}.
+Arguments gs_fs {N H}. Arguments GWrite {W R}. Arguments GRestart {W R}. Arguments GChdir {W R}.
+Arguments g_start {N H}. Arguments g_step {N H} hfs {W R}. Arguments g_run {N H} hfs {W R}.
+
+(* size-rotating handler in a process that may change directory *)
+Definition rg_write (B : Z) (h : rh) (m : msg) : rh := fst (r_log B h m).
+Definition rg_reinit (h : rh) (fs : fsys sname) (mb : Z) : rh := r_init fs mb (r_bc h).
+Definition rg_start (fs0 : gfsys sname) (cwd : Z) (p : parg) (mb : Z) (bc : nat) : gst sname rh :=
+  g_start fs0 cwd p (fun fs => r_init fs mb bc).
+Definition rg_step (B : Z) := g_step r_fs (rg_write B) rg_reinit.
+Definition rg_run (B : Z) := g_run r_fs (rg_write B) rg_reinit.
+
+(* time-rotating handler likewise; a write carries the clock *)
+Definition tg_write (B : Z) (h : th) (w : Z * msg) : th := fst (t_log B h (fst w) (snd w)).
+Definition tg_reinit (h : th) (fs : fsys tname) (clock : Z) : th :=
+  t_init fs clock (t_unit h) (t_mod h) (t_local h) (t_tzoff h).
+Definition tg_start (fs0 : gfsys tname) (cwd : Z) (p : parg) (clock : Z) (u : tunit) (md : Z) (local : bool) (tz : Z)
+  : gst tname th := g_start fs0 cwd p (fun fs => t_init fs clock u md local tz).
+Definition tg_step (B : Z) := g_step t_fs (tg_write B) tg_reinit.
+Definition tg_run (B : Z) := g_run t_fs (tg_write B) tg_reinit.
